@@ -235,6 +235,23 @@ func TestC19Parser(t *testing.T) {
 		o := defaultStreamOpts()
 		o.smallPSI, o.maxPESLen, o.noise = true, 900, false
 		m := drawStream(t, o)
+		if nn := gen.Uniform(t, 4, "nullpackets"); nn > 0 {
+			// null packets with a payload of their own (never two alike, continuity counter running): the parser is handed
+			// the units of every PID, this one included
+			for i := 0; i < nn; i++ {
+				np := &streamPacket{p: &ref.TSPacket{PID: 0x1fff, HasPayload: true}}
+				at := rapid.IntRange(0, len(m.packets)).Draw(t, "nullat")
+				m.packets = append(m.packets[:at:at], append([]*streamPacket{np}, m.packets[at:]...)...)
+			}
+			k := 0
+			for _, sp := range m.packets {
+				if sp.unit == nil && sp.p.PID == 0x1fff && sp.raw == nil {
+					sp.p.CC, sp.p.Payload = uint8(k), bytes.Repeat([]byte{byte(0xa0 + k)}, 184)
+					sp.raw = sp.p.MustEncode()
+					k++
+				}
+			}
+		}
 		stream := m.bytes()
 		base := demuxAll(stream)
 		if len(base.errs) > 0 {
